@@ -462,6 +462,9 @@ def proto():
             errors.append(f"plain.rs: CMD_{nm} not found")
         else:
             emit_bytes("plain" + nm.capitalize(), rust_bytes_literal(m.group(1)))
+    # PLAIN server: a credential that was never configured matches nothing (not even the empty string)
+    pls = re.sub(r"\s+", " ", strip_comments(pl))
+    emit_nat("plainUnsetCredentialAdmitsNobody", 1 if "let is_valid = self .expected_username .as_ref() .map_or(false, |u| u == &username) && self .expected_password .as_ref() .map_or(false, |p| p == &password);" in pls else 0)
     # engine misc
     b = fn_body(en, "process_ready")
     cork = re.findall(r'"(PUSH|PULL|PUB|SUB|REQ|REP|DEALER|ROUTER|PAIR|XPUB|XSUB)"', b)
@@ -516,6 +519,10 @@ def lifecycle():
     emit_nat("MAX_RECORD_PLAINTEXT", 65535 - int(mm.group(1)) if mm else 0)
     emit_nat("recordsAreChunked", len(re.findall(r"self\.seal_records\(&plaintext\)", fr)) if re.search(r"for chunk in plaintext\.chunks\(MAX_RECORD_PLAINTEXT\)", fr) else 0)
     emit_nat("recordLengthChecked", 1 if re.search(r"if ciphertext\.len\(\) > u16::MAX as usize \{\s*return Err", fr) else 0)
+    # every place where the session queues a control frame with priority is guarded by `output_must_keep_order()`
+    actc = strip_comments(src("core/src/sessionx/actor.rs"))
+    guarded = len(re.findall(r"if self\.zmtp_engine\.output_must_keep_order\(\) \{\s*egress_buffer\.push\(data, 0\);\s*\} else \{\s*egress_buffer\.push_priority\(data\);\s*\}", actc))
+    emit_nat("priorityPushesGuardedByKeepOrder", 1 if guarded == actc.count("push_priority(") and guarded >= 2 else 0)
     emit_nat("recordReaderAppendsPlaintext", 1 if re.search(r"let plaintext = self\.cipher\.decrypt\(&encrypted_frame\)\?;\s*self\.decrypted_buffer\.extend_from_slice\(&plaintext\);", fr) else 0)
     en2 = strip_comments(src("core/src/protocol/zmtp/engine.rs"))
     emit_nat("controlFramesThroughFramer", len(re.findall(r"match self\.frame_control\((?:ping_msg|pong)\)", en2)))
